@@ -24,4 +24,6 @@ mod h_iter;
 #[cfg(all(kani, not(feature = "counters")))]
 mod h_retain;
 #[cfg(all(kani, not(feature = "counters")))]
-mod h_probe;
+mod h_entry;
+#[cfg(all(kani, feature = "counters"))]
+mod h_cnt;
